@@ -13,6 +13,8 @@ Models, as they are NOW in /repo:
 * `nibabel/arrayproxy.py:387-461`      `_get_unscaled`, `_get_scaled`, `__array__`, `__getitem__` (fresh array per read)
 * `nibabel/fileslice.py:118-125`       `canonical_slicers`: which slices count as the whole axis
 * `nibabel/volumeutils.py:904-909`     `apply_read_scaling`: (slope, inter) = (1, 0) returns the raw array
+* `nibabel/volumeutils.py:446-453`     `array_from_file`: map mode (`True` means `'c'`), only for uncompressed
+                                        real files; `'r'` maps are read-only (`IOp`, `Par.readRO`)
 * `nibabel/filebasedimages.py:188`     `self._header = header_class.from_header(header)` (a copy)
 * `nibabel/analyze.py:912-915`         `AnalyzeImage.__init__`: the image's header copy has slope/inter
                                         reset to (None, None)
@@ -56,19 +58,52 @@ structure Hdr where
   dt : DT
   deriving DecidableEq, Repr
 
+/-- the `mmap` argument of `nib.load` / `from_file_map` / `ArrayProxy`: `True`, `False`, `'c'`, `'r'` -/
+inductive MMap | on | off | c | r
+  deriving DecidableEq, Repr
+
+/-- what the proxy's `file_like` is: the name of an uncompressed file, the name of a compressed file, or
+    an open file-like object without a file descriptor (`io.BytesIO`) -/
+inductive FileKind | path | pathGz | handle
+  deriving DecidableEq, Repr
+
+/-- the non-header arguments an `ArrayProxy` stores at construction (`self._mmap`, `self.file_like`)
+    and whether the storage byte order is the machine's (`self._dtype.isnative`) -/
+structure IOp where
+  mmap : MMap := .on
+  file : FileKind := .handle
+  swapped : Bool := false
+  deriving DecidableEq, Repr
+
+/-- volumeutils.py:446-453 (`array_from_file`): `if mmap and not compressed: mode = 'c' if mmap is True else
+    mmap; try: return np.memmap(..., mode=mode)`; `some ro` = the whole-array read IS a memory map, read-only
+    iff the mode is `'r'`.  External contract (OS / NumPy): `np.memmap` succeeds exactly for a real file
+    (`.path`); for a `BytesIO` it raises and the code falls through to a plain, writeable read. -/
+def IOp.mapMode (io : IOp) : Option Bool :=
+  if io.file = .path then
+    match io.mmap with
+    | .off => none
+    | .on => some false
+    | .c => some false
+    | .r => some true
+  else none
+
+def IOp.roMap (io : IOp) : Bool := io.mapMode == some true
+
 /-- the parameters an `ArrayProxy` copies out of the header at construction (arrayproxy.py:175-208);
     the shape is the length of the file's value list -/
 structure Par where
   dt : DT
   slope : Int
   inter : Int
+  io : IOp := {}
   deriving DecidableEq, Repr
 
 /-- arrayproxy.py:177-184: `1.0 if slope is None else slope`, `0.0 if inter is None else inter` -/
-def Par.ofHdr (h : Hdr) : Par :=
+def Par.ofHdr (h : Hdr) (io : IOp := {}) : Par :=
   match h.scale with
-  | some (s, i) => ⟨h.dt, s, i⟩
-  | none => ⟨h.dt, 1, 0⟩
+  | some (s, i) => ⟨h.dt, s, i, io⟩
+  | none => ⟨h.dt, 1, 0, io⟩
 
 /-- `raw * slope + inter` (`apply_read_scaling`) -/
 def Par.scaled (p : Par) (raw : List Int) : List Int := raw.map (fun v => v * p.slope + p.inter)
@@ -87,7 +122,17 @@ def isFullSlice (sl : PySlice) (n : Nat) : Bool :=
     (writeable); any other slice goes through `fileslice`, whose result wraps an immutable `bytes`
     buffer and is read-only unless scaling arithmetic produced a new array -/
 def Par.sliceRO (p : Par) (sl : PySlice) (n : Nat) : Bool :=
-  decide (p.slope = 1 ∧ p.inter = 0) && !isFullSlice sl n
+  decide (p.slope = 1 ∧ p.inter = 0) && (!isFullSlice sl n || p.io.roMap)
+
+/-- is the result of a whole-array read (`__array__(dtype)`, arrayproxy.py:412-459) read-only?  Only when it
+    is the read-only memory map itself: map mode `'r'`, no scaling (`apply_read_scaling` returns its
+    argument for (1, 0), volumeutils.py:907-908) and no conversion — `astype(..., copy=False)` returns
+    its argument only for the identical dtype, byte order included. -/
+def Par.readRO (p : Par) (d : Option DT) : Bool :=
+  p.io.roMap && decide (p.slope = 1 ∧ p.inter = 0) &&
+    (match d with
+     | none => true
+     | some d => decide (d = p.dt) && !p.io.swapped)
 
 /-- what the image's `dataobj` is: an ndarray (array image; `own` = its heap id) or an array proxy
     (proxy image; the file's raw values and the frozen parameters) -/
@@ -175,7 +220,7 @@ def readObj (s : State) (d : Option DT) : State × Nat :=
       match d with
       | none => (s, own)
       | some d => if (s.get own).dt = d then (s, own) else alloc s ⟨d, (s.get own).vals, false⟩
-  | .proxy raw p => alloc s ⟨d.getD p.outDt, p.scaled raw, false⟩
+  | .proxy raw p => alloc s ⟨d.getD p.outDt, p.scaled raw, p.readRO d⟩
 
 def retArr (s : State) (id : Nat) : State × Out :=
   let s' := { s with last := some id }
@@ -250,8 +295,8 @@ def initArray (a : Arr) (h : Hdr) : State :=
 
 /-- proxy image built from header `h` over a file with values `raw`
     (`from_file_map`, or `Nifti1Image(ArrayProxy(f, h), None, h)`) -/
-def initProxy (raw : List Int) (h : Hdr) : State :=
-  { img := .proxy raw (Par.ofHdr h), heap := [], fcache := none, dcache := none, last := none,
+def initProxy (raw : List Int) (h : Hdr) (io : IOp := {}) : State :=
+  { img := .proxy raw (Par.ofHdr h io), heap := [], fcache := none, dcache := none, last := none,
     imgHdr := imgHdrOf h, origHdr := h }
 
 /-! ## The documented model (doc/source/images_and_memory.rst, get_fdata docstring)
@@ -288,7 +333,7 @@ def read (t : Spec) (d : Option DT) : Spec × (Nat × Arr) :=
       | none => (t, own)
       | some d => if own.2.dt = d then (t, own)
                   else ({ t with next := t.next + 1 }, (t.next, ⟨d, own.2.vals, false⟩))
-  | .proxy raw p => ({ t with next := t.next + 1 }, (t.next, ⟨d.getD p.outDt, p.scaled raw, false⟩))
+  | .proxy raw p => ({ t with next := t.next + 1 }, (t.next, ⟨d.getD p.outDt, p.scaled raw, p.readRO d⟩))
 
 def ret (t : Spec) (r : Nat × Arr) : Spec × Out :=
   let t' := { t with last := some r.1 }
@@ -436,7 +481,7 @@ is consulted on every read.  The construction code decides which (three defensiv
 /-- where an `ArrayProxy` gets dtype/slope/inter from when it reads -/
 inductive PSrc
   | copy (p : Par)     -- values copied at construction (what the code does)
-  | ref (c : Nat)      -- header object `c`, looked up at read time (the aliasing variant)
+  | ref (c : Nat) (io : IOp)   -- header object `c`, looked up at read time (the aliasing variant)
   deriving DecidableEq, Repr
 
 inductive RImg
@@ -452,7 +497,7 @@ def cellGet (cells : List Hdr) (c : Nat) : Hdr := (cells[c]?).getD Hdr.dflt
 /-- the parameters a read uses NOW -/
 def PSrc.par (cells : List Hdr) : PSrc → Par
   | .copy p => p
-  | .ref c => Par.ofHdr (cellGet cells c)
+  | .ref c io => Par.ofHdr (cellGet cells c) io
 
 structure RState where
   cells : List Hdr         -- heap of header objects
@@ -515,8 +560,8 @@ structure Copies where
 def Copies.code : Copies := ⟨true, true, true⟩
 
 /-- `ArrayProxy(file, spec = header object c)` -/
-def mkSrc (k : Copies) (cells : List Hdr) (c : Nat) : PSrc :=
-  if k.proxy then .copy (Par.ofHdr (cellGet cells c)) else .ref c
+def mkSrc (k : Copies) (cells : List Hdr) (c : Nat) (io : IOp) : PSrc :=
+  if k.proxy then .copy (Par.ofHdr (cellGet cells c) io) else .ref c io
 
 /-- `klass(dataobj, affine, header = object c)`: filebasedimages.py:188, then analyze.py:912-915 resets
     slope/inter on `self._header` (on the caller's object, if no copy was made) -/
@@ -527,18 +572,18 @@ def mkImgHdr (k : Copies) (cells : List Hdr) (c : Nat) : List Hdr × Nat :=
 /-- `klass.from_file_map(...)` (analyze.py:957-978) over a file with header `h` and values `raw`:
     cell 0 = `header`, `hdr_copy` = a new cell 1 (or cell 0 itself), the proxy is built from `hdr_copy`
     BEFORE the image is, the image from `header`; the caller reaches `hdr_copy` through `_load_cache` -/
-def rinitFileMap (k : Copies) (raw : List Int) (h : Hdr) : RState :=
+def rinitFileMap (k : Copies) (raw : List Int) (h : Hdr) (io : IOp := {}) : RState :=
   let cells1 := if k.fileMap then [h, h] else [h]
   let pc := if k.fileMap then 1 else 0
-  let src := mkSrc k cells1 pc
+  let src := mkSrc k cells1 pc io
   let x := mkImgHdr k cells1 0
   { cells := x.1, imgCell := x.2, origCell := pc, img := .proxy raw src,
     heap := [], fcache := none, dcache := none, last := none }
 
 /-- `proxy = ArrayProxy(file, hdr); img = Nifti1Image(proxy, affine, hdr)` with the caller keeping `hdr`
     (cell 0) -/
-def rinitCtor (k : Copies) (raw : List Int) (h : Hdr) : RState :=
-  let src := mkSrc k [h] 0
+def rinitCtor (k : Copies) (raw : List Int) (h : Hdr) (io : IOp := {}) : RState :=
+  let src := mkSrc k [h] 0 io
   let x := mkImgHdr k [h] 0
   { cells := x.1, imgCell := x.2, origCell := 0, img := .proxy raw src,
     heap := [], fcache := none, dcache := none, last := none }
@@ -550,7 +595,7 @@ def rinitArray (k : Copies) (a : Arr) (h : Hdr) : RState :=
     heap := [a], fcache := none, dcache := none, last := none }
 
 /-- the proxy (if any) owns a copy of its parameters -/
-def RState.Frozen (r : RState) : Prop := ∀ raw c, r.img ≠ .proxy raw (.ref c)
+def RState.Frozen (r : RState) : Prop := ∀ raw c io, r.img ≠ .proxy raw (.ref c io)
 
 /-- `img.header` and the caller's header are two different, existing objects -/
 def RState.Sep (r : RState) : Prop :=
